@@ -35,6 +35,8 @@ var c14P1, c14P2 = func() (a, b [64]color.RGBA) {
 	b[1] = color.RGBA{0x90, 0, 0, 0x10}        // invalid
 	b[63] = color.RGBA{0x02, 0x4a, 0x8a, 0x00} // gradient-looking
 	a[0] = color.RGBA{0, 0, 0, 0}              // transparent: switches paths off
+	a[1] = color.RGBA{0x00, 0x00, 0xff, 0xfe}  // invalid by exactly one
+	a[63] = color.RGBA{0x01, 0x01, 0x01, 0x00} // invalid by exactly one, alpha 0
 	return
 }()
 
@@ -49,7 +51,7 @@ var c14Cols = []struct {
 	{"Gray", color.Gray{0x77}},
 	{"RGBA64", color.RGBA64{0x1234, 0x2345, 0x3456, 0x8000}},
 	{"custom r>a", weird{0xffff, 0, 0, 0x8000}},
-	{"invalid premultiplied RGBA", color.RGBA{0x55, 0x00, 0x00, 0x10}},
+	{"invalid premultiplied RGBA (one channel exceeds alpha by 1)", color.RGBA{0x81, 0x00, 0x00, 0x80}},
 	{"gradient-looking RGBA", color.RGBA{0x02, 0x4a, 0x8a, 0x00}},
 }
 
